@@ -321,6 +321,8 @@ class VhdSuite(Suite):
 
 SUITES = {"vhd": VhdSuite()}
 
-from harness.readers import under_O, under_debug  # noqa: E402
+from harness.readers import under_O, under_debug, under_bufsize  # noqa: E402
 SUITES["vhd_pyO"] = under_O(SUITES["vhd"])
 SUITES["vhd_dbg"] = under_debug(SUITES["vhd"])
+SUITES["vhd_buf12288"] = under_bufsize(SUITES["vhd"], 12288)
+SUITES["vhd_buf1536"] = under_bufsize(SUITES["vhd"], 1536, n=4)
